@@ -1,5 +1,6 @@
 """C20 - the profiling wrapper is transparent and counts truthfully."""
 import json
+import common
 import random
 import warnings
 
@@ -69,6 +70,7 @@ def only_iter_parents(p):
 
 
 def one_case(rng, g, counting):
+    common.gc_point()
     p = g.pipeline()
     if counting:
         g2 = G.Gen(rng, stages=['map', 'mapRaise', 'filterLazy', 'batch', 'unbatch', 'concat'], malformed=0.0)
